@@ -94,6 +94,11 @@ static std::string gen(const std::string &prop, uint64_t base, uint64_t idx, boo
                 }
                 pay = std::max(pay, off);
             }
+            if (fn == "Cvf" && r.chance(0.5)) {  // the format-specific sub-header that follows a CVF header
+                static const char *sub[] = {"H264", "Mjpeg", "Jpeg2000"};
+                const BindFormat *sf = find_format(sub[r.below(3)]);
+                if (sf) { subs.push_back({sf, 0}); pay = std::max(pay, (int)sf->spec_bytes); }
+            }
             int me = id++;
             // placement: every byte address (results may depend only on the buffer's bytes, not on where it lies)
             line(strf("buf id=%d task=%d fmt=%s pay=%d align=%d", me, t, f->name, pay, (int)(r.chance(0.5) ? 0 : r.below(8))));
@@ -102,6 +107,21 @@ static std::string gen(const std::string &prop, uint64_t base, uint64_t idx, boo
                 line(strf("buf id=%d task=%d fmt=%s parent=%d off=%d", id, t, s.first->name, me, s.second));
                 bufs.push_back({id, t, s.first, 0});
                 id++;
+            }
+            // a second *view* of the same bytes through another format's accessors (the generic ACF header of an ACF message, the
+            // common stream header of a stream PDU, AAF <-> AAF-PCM): the header is one record whichever accessor family touches it
+            if (r.chance(0.3)) {
+                const char *view = nullptr;
+                if (is_acf(fn) && fn != "AcfCommon") view = "AcfCommon";
+                else if (fn == "Aaf") view = r.coin() ? "Pcm" : "CommonHeader";
+                else if (fn == "Pcm") view = r.coin() ? "Aaf" : "CommonHeader";
+                else if (fn == "Cvf" || fn == "Crf" || fn == "Rvf" || fn == "Tscf" || fn == "Ntscf") view = "CommonHeader";
+                const BindFormat *vf = view ? find_format(view) : nullptr;
+                if (vf && vf->spec_bytes <= f->spec_bytes + (unsigned)pay) {
+                    line(strf("buf id=%d task=%d fmt=%s parent=%d alias=1", id, t, vf->name, me));
+                    bufs.push_back({id, t, vf, 0});
+                    id++;
+                }
             }
         }
     }
@@ -268,7 +288,7 @@ static void exec(const std::string &text, bool verbose) {
     auto lines = sim::split_lines(text);
     Rng garbage(1);
     // probes / non-triviality
-    uint64_t pr_cross = 0, pr_wide = 0, pr_reloc_rw = 0, pr_leg_cur = 0, pr_switch_rw = 0, pr_sub = 0, pr_nontrivial = 0, n_set = 0, n_get = 0, n_init = 0, n_comm = 0;
+    uint64_t pr_alias = 0, pr_cross = 0, pr_wide = 0, pr_reloc_rw = 0, pr_leg_cur = 0, pr_switch_rw = 0, pr_sub = 0, pr_nontrivial = 0, n_set = 0, n_get = 0, n_init = 0, n_comm = 0;
     std::map<std::string, uint64_t> per_entry;
     int last_task = -1;
     int task_switches = 0;
@@ -288,7 +308,8 @@ static void exec(const std::string &text, bool verbose) {
                 if (it == bufs.end()) continue;
                 b.parent = it->first;
                 b.alloc = it->second.alloc;
-                b.off = it->second.off + it->second.f->spec_bytes + kv.u64("off");
+                b.off = kv.u64("alias", 0) ? it->second.off : it->second.off + it->second.f->spec_bytes + kv.u64("off");
+                if (kv.u64("alias", 0)) pr_alias++;
                 // the sub-PDU must fit into the parent's allocation
                 if (b.off + b.f->spec_bytes > allocs[b.alloc].size - kGuard) continue;
             } else {
@@ -542,6 +563,7 @@ static void exec(const std::string &text, bool verbose) {
     g_res.counters["probe.legacy_write_current_read"] = pr_leg_cur;
     g_res.counters["probe.task_switch_between_write_and_read"] = pr_switch_rw;
     g_res.counters["probe.acf_message_inside_control_pdu"] = pr_sub;
+    g_res.counters["probe.second_view_of_same_header"] = pr_alias;
     g_res.counters["probe.same_quadlet_interference_read"] = pr_nontrivial;
     g_res.counters["task_switches"] = task_switches;
     { uint64_t ua = 0; for (auto &a : allocs) if (((uintptr_t)a.mem + kGuard) & 3) ua++; g_res.counters["probe.unaligned_placement"] = ua; }
@@ -580,7 +602,7 @@ int main(int argc, char **argv) {
              "relocation, the ACF-CAN / CAN-brief message builders as compound writes) interleaved over the buffers, boundary-biased values; distinct = distinct event-log digest; non-trivial = some field is read after a later "
              "write to a different field of the same quadlet";
     e.probes = {"probe.cross_quadlet_field_written", "probe.value_wider_than_field", "probe.relocation_between_write_and_read", "probe.legacy_write_current_read",
-                "probe.task_switch_between_write_and_read", "probe.acf_message_inside_control_pdu", "entry.set.gen", "entry.set.ded", "entry.set.leg",
+                "probe.task_switch_between_write_and_read", "probe.acf_message_inside_control_pdu", "probe.second_view_of_same_header", "entry.set.gen", "entry.set.ded", "entry.set.leg",
                 "entry.get.gen", "entry.get.ded", "entry.get.leg", "entry.init.cur", "entry.init.legacy", "entry.fused", "entry.build.create", "entry.build.finalize", "entry.build.setpayload", "value.derived",
                 "probe.unaligned_placement"};
     e.real_components = {"libopen1722 + libopen1722custom objects built from /repo/src (working tree)", "call bindings generated from /repo/include at build time"};
